@@ -364,6 +364,7 @@ def drive_and_validate(ctx, zr, name, args, policy, stats, samples, parts=6, str
     if s.get("mode") == "graph":
         stats["graph_edges"] += s["edges"]
         stats["graph_edges_replayed"] += s["edges_covered"]
+    ctx.log("%s: %d commands, %d observation lines, %d segments validated" % (name, st["Cmds"], st["Obs"], st["Segments"]))
     stats["runs"].append(dict(name=name, mode=s["mode"], engine=s["engine"], policy=s["policy"], pool=s["pool"],
                               cmds=st["Cmds"], obs=st["Obs"], segments=st["Segments"], edges=s["edges"],
                               edges_covered=s["edges_covered"]))
@@ -529,7 +530,10 @@ def run_family(ctx, prop):
     pool = rnd.choice(ALL_POOLS)
     mpool = rnd.choice(PREFIX_FREE_POOLS)
     glimit = "5000" if quick else ("1500" if smoke else "0")
-    g2limit = "1500" if smoke else "60000"
+    g2limit = "1500" if smoke else "30000"
+    # thorough: every edge of the h, l and s graphs; the two big graphs (kv, z: ~300 000 edges each) are
+    # covered by a seeded walk of 120 000 steps per run (different edges for different seeds)
+    big_graph_limit = "120000"
     for t in gtypes:
         r, dot = models[t]
         if not (r.ok and os.path.exists(dot)):
@@ -537,7 +541,8 @@ def run_family(ctx, prop):
         # pebble / wait_compact: the primary configuration, reader's clock inside the window
         drive_and_validate(ctx, zr, "graph-%s-pebble-wc" % t,
                            ["-eng", "pebble", "-policy", "wc", "-dot", dot, "-gtype", LETTER[t], "-seed", seed, "-pool", str(pool),
-                            "-limit", glimit, "-nk", "2", "-ns", "2", "-nowtick", "2"], "wc", stats, samples,
+                            "-limit", glimit if (quick or smoke or t not in ("kv", "z")) else big_graph_limit,
+                            "-nk", "2", "-ns", "2", "-nowtick", "2"], "wc", stats, samples,
                            parts=6 if quick else 12)
         if not quick:
             drive_and_validate(ctx, zr, "graph-%s-mem-wc" % t,
@@ -642,7 +647,7 @@ def run_family(ctx, prop):
         states=mstates, transitions=mtrans,
         traces_validated_against_impl=stats["segments"],
         samples=samples or [{"note": "no sample"}],
-        exhaustive=not quick,
+        exhaustive=False,      # the model runs are exhaustive; the replay covers every edge of h, l, s (thorough) and samples kv, z
         model_runs=[dict(type=t, **r.summary()) for t, (r, _) in models.items()] + ([dict(type="ld", **ld_model.summary())] if ld_model else []),
         graph_types=gtypes, graph_edges=stats["graph_edges"], graph_edges_replayed=stats["graph_edges_replayed"],
         events_validated=stats["events"], commands_executed=stats["cmds"], observation_lines=stats["obs"],
